@@ -8,20 +8,33 @@ import (
 )
 
 // probe: `vh c17-positions probe <schema> [@t=<text> ...]` prints the Check() error of a schema (debug aid).
+// With a first argument of the form `-n=<file name>` the root (and, with `-n=<root>,<types>`, the types) get that
+// file name; the observation then lists everything the property talks about.
 func probe(args []string) {
-	s := jschema.New("root", args[0])
+	rootName, typeName, fixed := "root", "", false
+	if strings.HasPrefix(args[0], "-n=") {
+		nm := strings.SplitN(args[0][3:], ",", 2)
+		rootName = nm[0]
+		if len(nm) == 2 {
+			typeName, fixed = nm[1], true
+		}
+		args = args[1:]
+	}
+	s := jschema.New(rootName, args[0])
 	for _, a := range args[1:] {
 		i := strings.Index(a, "=")
-		if err := s.AddType(a[:i], jschema.New(a[:i], a[i+1:])); err != nil {
-			_, d := errPos(err)
-			fmt.Printf("AddType %s: %s | %q\n", a[:i], d, err.Error())
+		fn := a[:i]
+		if fixed {
+			fn = typeName
+		}
+		if err := s.AddType(a[:i], jschema.New(fn, a[i+1:])); err != nil {
+			fmt.Printf("AddType %s: %s | %q\n", a[:i], observe(err).String(), err.Error())
 			return
 		}
 	}
 	err := s.Check()
-	_, d := errPos(err)
 	if err != nil {
-		fmt.Printf("%s | %q\n", d, err.Error())
+		fmt.Printf("%s | %q\n", observe(err).String(), err.Error())
 	} else {
 		fmt.Println("OK")
 	}
